@@ -50,6 +50,10 @@ inductive Site where
   | queueFetchFrom
   /-- `TokenBucket::refill`: `now.duration_since(self.refilled_at)` (`expect`) -/
   | limiterClock
+  /-- `Service::initial`: `Timestamp::from(last - SUBSCRIBE_BACKLOG_DELTA)`: `LocalTime - LocalDuration` is a plain
+  `u128` subtraction (overflow panic in debug builds; in release builds it wraps and the `try_into().unwrap()`
+  of `LocalTime::as_millis` panics) -/
+  | subscribeBacklog
   deriving Repr, DecidableEq
 
 inductive SessErr where
@@ -72,12 +76,20 @@ structure Code where
   zeroTimestampGuard : Bool
   /-- `gossip::Store::filtered` still asserts `from <= to` -/
   filteredAsserts : Bool
+  /-- `Service::initial` computes the backlog start with a saturating subtraction
+  (proposed repair, `fixes-pending/C13-subscribe-backlog-underflow.patch`) -/
+  subscribeSaturates : Bool
   deriving Repr, DecidableEq
 
 /-- `/repo` main. -/
-def Code.current : Code := { zeroTimestampGuard := true, filteredAsserts := false }
+def Code.current : Code := { zeroTimestampGuard := true, filteredAsserts := false, subscribeSaturates := false }
+/-- `/repo` main with the proposed repair of `Service::initial`. -/
+def Code.fixed : Code := { zeroTimestampGuard := true, filteredAsserts := false, subscribeSaturates := true }
 /-- The tree before commit e41c53f. -/
-def Code.beforeE41c53f : Code := { zeroTimestampGuard := false, filteredAsserts := true }
+def Code.beforeE41c53f : Code := { zeroTimestampGuard := false, filteredAsserts := true, subscribeSaturates := false }
+
+/-- `SUBSCRIBE_BACKLOG_DELTA` = 3 min, in milliseconds -/
+def SUBSCRIBE_BACKLOG_DELTA : Nat := 180000
 
 /-- `session::State`; `Connected` carries the set of repositories being fetched from the peer and
 the length of the pong we are waiting for. -/
@@ -130,6 +142,15 @@ structure State where
   fetching : Rid → Option (Nid × List RefAt)
   /-- `RateLimiter::buckets`: host ↦ `refilled_at` -/
   buckets : Host → Option Nat
+  /-- the `announcements` table of the node database: (announcer, type, repo) ↦ timestamp
+  (type 0 node, 1 inventory, 2 refs; repo 0 for the first two) -/
+  gossip : Nid × Nat × Rid → Option Nat
+  /-- `SELECT MAX(timestamp) FROM announcements` (`gossip::Store::last`) -/
+  gossipMax : Option Nat
+  /-- `Service::last_online_at`: what `gossip().last()` returned when the process started -/
+  lastOnline : Option Nat
+  /-- nodes with a row in the address book (`db.addresses().get(nid)` is `Some`) -/
+  known : Nid → Bool
 
 def upd {α : Type} (f : Nat → Option α) (k : Nat) (v : Option α) : Nat → Option α :=
   fun k' => if k' = k then v else f k'
@@ -138,9 +159,9 @@ def upd {α : Type} (f : Nat → Option α) (k : Nat) (v : Option α) : Nat → 
 structure Env where
   /-- the token bucket of the host is empty -/
   limited : Bool
-  /-- `db.addresses().get(announcer)` is `Ok(Some(_))` -/
+  /-- `db.addresses().get(announcer)` did not fail (`Err` is treated like an unknown node) -/
   knownNode : Nid → Bool
-  /-- `db.gossip_mut().announced(..)` is `Ok(Some(id))` -/
+  /-- `db.gossip_mut().announced(..)` did not fail (`Err` is treated like a stale announcement) -/
   announcedFresh : Bool
   /-- `sync_routing(..)` is `Ok(synced)` with `synced` non-empty -/
   routingSynced : Bool
@@ -219,21 +240,42 @@ def fetchAll (σ : State) (frm : Nid) : List Rid → Except Site State
 /-! ## `handle_announcement` -/
 
 /-- Inventory and refs announcements of nodes we have no node announcement of are ignored. -/
-def unknownIgnored (env : Env) (a : Announcement) : Bool :=
+def unknownIgnored (env : Env) (σ : State) (a : Announcement) : Bool :=
   match a.kind with
   | .node _ => false
-  | _ => !env.knownNode a.announcer
+  | _ => !(env.knownNode a.announcer && σ.known a.announcer)
 
-/-- Result of `handle_announcement`: `Err(e)` is `.disconnect e`. -/
-def handleAnnouncement (c : Code) (env : Env) (σ : State) (a : Announcement) : Outcome × State :=
-  if !a.sigOk then (.disconnect .misbehavior, σ) else
-  if a.announcer = σ.self then (.ok, σ) else
-  if c.zeroTimestampGuard && a.timestamp == 0 then (.disconnect .invalidTimestamp, σ) else
-  if MAX_TIME_DELTA < a.timestamp - σ.now then (.disconnect .invalidTimestamp, σ) else
-  if unknownIgnored env a then (.ok, σ) else
-  -- `self.db.gossip_mut().announced(announcer, announcement)`
-  if a.timestamp = 0 then (.panic .announcedZeroTimestamp, σ) else
-  if !env.announcedFresh then (.ok, σ) else
+/-- Key of an announcement in the `announcements` table (`UNIQUE (node, repo, type)`). -/
+def Announcement.key (a : Announcement) : Nid × Nat × Rid :=
+  match a.kind with
+  | .node _ => (a.announcer, 0, 0)
+  | .inventory _ => (a.announcer, 1, 0)
+  | .refs rid _ => (a.announcer, 2, rid)
+
+/-- `INSERT … ON CONFLICT DO UPDATE … WHERE timestamp < ?6 RETURNING rowid`: stored iff there is no row with
+the same key and a timestamp at least as large. -/
+def isNewer (σ : State) (a : Announcement) : Bool :=
+  match σ.gossip a.key with
+  | none => true
+  | some t => decide (t < a.timestamp)
+
+def optMax (m : Option Nat) (t : Nat) : Option Nat :=
+  match m with
+  | none => some t
+  | some x => some (max x t)
+
+/-- The state after the announcement was stored; a node announcement of a seed also creates / updates the
+announcer's row in the address book. -/
+def stored (σ : State) (a : Announcement) : State :=
+  { σ with
+    gossip := fun k => if k = a.key then some a.timestamp else σ.gossip k
+    gossipMax := optMax σ.gossipMax a.timestamp
+    known := match a.kind with
+      | .node true => fun n => if n = a.announcer then true else σ.known n
+      | _ => σ.known }
+
+/-- What `handle_announcement` does with an announcement once it is stored (`match message { … }`). -/
+def processStored (env : Env) (σ : State) (a : Announcement) : Outcome × State :=
   match a.kind with
   | .node _ => (.ok, σ)
   | .inventory rids =>
@@ -257,6 +299,18 @@ def handleAnnouncement (c : Code) (env : Env) (σ : State) (a : Announcement) : 
       match fetch σ rid remote.id want with
       | .error s => (.panic s, σ)
       | .ok σ' => (.ok, σ')
+
+/-- Result of `handle_announcement`: `Err(e)` is `.disconnect e`. -/
+def handleAnnouncement (c : Code) (env : Env) (σ : State) (a : Announcement) : Outcome × State :=
+  if !a.sigOk then (.disconnect .misbehavior, σ) else
+  if a.announcer = σ.self then (.ok, σ) else
+  if c.zeroTimestampGuard && a.timestamp == 0 then (.disconnect .invalidTimestamp, σ) else
+  if MAX_TIME_DELTA < a.timestamp - σ.now then (.disconnect .invalidTimestamp, σ) else
+  if unknownIgnored env σ a then (.ok, σ) else
+  -- `self.db.gossip_mut().announced(announcer, announcement)`
+  if a.timestamp = 0 then (.panic .announcedZeroTimestamp, σ) else
+  if !(env.announcedFresh && isNewer σ a) then (.ok, σ) else
+  processStored env (stored σ a) a
 
 /-! ## `handle_message` / `received_message` -/
 
@@ -327,9 +381,20 @@ def failFetches (σ : State) (remote : Nid) : Rid → Option (Nid × List RefAt)
   | some (f, r) => if f = remote then none else some (f, r)
   | none => none
 
-/-- `Service::connected(remote, addr, Link::Inbound)`: a peer that already has a session gets it reset;
-if that session was connected, its ongoing fetches are failed (commit ba93de2). -/
-def connectedInbound (σ : State) (remote : Nid) (host : Host) (routable persistent : Bool) : State :=
+/-- `Service::initial`: the `since` of the Subscribe sent on every new connection. `none` = the
+subtraction `last - SUBSCRIBE_BACKLOG_DELTA` underflowed (panic, see `Site.subscribeBacklog`). With the
+proposed repair the subtraction saturates. -/
+def initialSince (c : Code) (σ : State) : Option Nat :=
+  match σ.lastOnline with
+  | none => some (σ.now - 86400000)        -- `now - INITIAL_SUBSCRIBE_BACKLOG_DELTA`
+  | some last =>
+    if c.subscribeSaturates then some (last - SUBSCRIBE_BACKLOG_DELTA)
+    else if last < SUBSCRIBE_BACKLOG_DELTA then none
+    else some (last - SUBSCRIBE_BACKLOG_DELTA)
+
+/-- The session table after `Service::connected(remote, addr, Link::Inbound)`: a peer that already has a
+session gets it reset; if that session was connected, its ongoing fetches are failed (commit ba93de2). -/
+def connectedSessions (σ : State) (remote : Nid) (host : Host) (routable persistent : Bool) : State :=
   match σ.sessions remote with
   | some s =>
     if s.isConnected then
@@ -339,6 +404,27 @@ def connectedInbound (σ : State) (remote : Nid) (host : Host) (routable persist
     let s : Session := { id := remote, host := host, routable := routable, persistent := persistent,
                          state := SessState.connected [] none, queue := [], subscribed := false }
     { σ with sessions := upd σ.sessions remote (some s) }
+
+/-- `Service::connected(remote, addr, Link::Inbound)`: first `self.initial(link)` builds the initial messages. -/
+def connectedInbound (c : Code) (σ : State) (remote : Nid) (host : Host) (routable persistent : Bool) :
+    Outcome × State :=
+  match initialSince c σ with
+  | none => (.panic .subscribeBacklog, σ)
+  | some _ => (.ok, connectedSessions σ remote host routable persistent)
+
+/-- The node process is restarted: a new `Service` over the same database. Sessions, ongoing fetches and
+rate-limiter buckets are gone; `initialize` records the newest stored announcement as `last_online_at` and
+creates a session (in `Initial` state) for every configured peer. -/
+def restarted (σ : State) (configured : List (Nid × Host × Bool)) : State :=
+  { σ with
+    sessions := fun k =>
+      match configured.find? (·.1 = k) with
+      | some (p, h, ro) =>
+        some (Session.mk p h ro true SessState.initial [] false)
+      | none => none
+    fetching := fun _ => none
+    buckets := fun _ => none
+    lastOnline := σ.gossipMax }
 
 /-- `Service::disconnected(remote, link, reason)` with `link` = the session's link. -/
 def disconnected (σ : State) (remote : Nid) : State :=
@@ -357,12 +443,14 @@ inductive Op where
   | recv (remote : Nid) (m : Msg)
   | connectIn (remote : Nid) (host : Host) (routable persistent : Bool)
   | disconnect (remote : Nid)
+  | restart (configured : List (Nid × Host × Bool))
   deriving Repr, DecidableEq
 
 def step (c : Code) (env : Env) (σ : State) : Op → Outcome × State
   | .recv r m => handleMessage c env σ r m
-  | .connectIn r h ro p => (.ok, connectedInbound σ r h ro p)
+  | .connectIn r h ro p => connectedInbound c σ r h ro p
   | .disconnect r => (.ok, disconnected σ r)
+  | .restart cfg => (.ok, restarted σ cfg)
 
 /-- A whole history; the oracle may answer differently at every step. Stops at the first panic. -/
 def run (c : Code) (envs : Nat → Env) (σ : State) : List Op → Nat → List Outcome
